@@ -511,9 +511,21 @@ Section Handlers.
 
   (* ================= observations and the property predicate ================= *)
   (* what the harness records at the sync marker after each event: Config().Me (nil-ness,
-     Nick) BEFORE calling Me(), then Me() (nil-ness, Nick), and the NICK lines the client
-     wrote during the step.  Calling Me() is itself an input (it assigns cfg.Me). *)
-  Record obs := { o_cfg : option bytes; o_me : option bytes; o_nicks : list bytes }.
+     Nick) BEFORE calling Me(), then Me() (nil-ness, Nick), then Config().Me again, the
+     nil-ness of Config().Me seen by a CONNECTED foreground handler during the step, and the
+     NICK lines the client wrote.  Calling Me() is itself an input (it assigns cfg.Me). *)
+  (* [o_cfg] Config().Me.Nick read FIRST (None = nil); [o_me] then Me().Nick; [o_cfg2] then
+     Config().Me.Nick again; [o_conn] one flag per CONNECTED event dispatched during the step
+     (h_001 defers it: a foreground handler reads Config().Me there) — true = it was nil *)
+  Record obs := { o_cfg : option bytes; o_me : option bytes; o_cfg2 : option bytes;
+                  o_conn : list bool; o_nicks : list bytes }.
+
+  Definition is_welcome_in (i : cinput) : bool :=
+    match i with
+    | InLine raw => match recv_one raw with Ok (Some l) => beq (l_cmd l) c_001 | _ => false end
+    | _ => false
+    end.
+  Definition is_nil {A} (o : option A) : bool := match o with None => true | Some _ => false end.
 
   Fixpoint observe_with hdl (w : world) (es : list event) : list obs :=
     match es with
@@ -521,6 +533,9 @@ Section Handlers.
     | e :: es' =>
         let '(w1, outs) := wstep_with hdl w e in
         let o := {| o_cfg := cfg_nick_of (w_cli w1); o_me := me_nick_of (w_cli w1);
+                    o_cfg2 := cfg_nick_of (fst (do_Me (w_cli w1)));
+                    o_conn := map (fun _ => is_nil (cfg_me (w_cli w1)))
+                                  (filter is_welcome_in (snd (srv_pre (w_srv w) e)));
                     o_nicks := filter is_nick_line outs |} in
         o :: observe_with hdl (fst (wstep_with hdl w1 EMe)) es'
     end.
@@ -544,7 +559,8 @@ Section Handlers.
 
   (* The property as a boolean on (script, observations): walk the script with the server's
      own state — what the client requested is read off the OBSERVED wire —
-       (1) Config().Me and Me() are never nil;
+       (1) Config().Me (before and after the call of Me(), and inside every CONNECTED handler)
+           and Me() are never nil;
        (2) as long as every event so far was conformant and the welcome has been sent,
            Me().Nick is the nick the server uses for the client;
        (3) every 433 with >= 2 arguments is answered by exactly NICK <generator(refused)>,
@@ -557,7 +573,8 @@ Section Handlers.
         let '(en, srv1, _) := srv_pre srv e in
         let srv2 := srv_post srv1 (o_nicks o) in
         let ok' := ok && en in
-        let never_nil := match o_cfg o, o_me o with Some _, Some _ => true | _, _ => false end in
+        let never_nil := match o_cfg o, o_me o, o_cfg2 o with Some _, Some _, Some _ => true | _, _, _ => false end
+                         && negb (existsb (fun b => b) (o_conn o)) in
         let tracks := if ok' && sv_reg srv2 then opt_beq' (o_me o) (Some (sv_nick srv2)) else true in
         let coll := match refused_of srv e with
                     | Some r => list_beq (o_nicks o) (nick_lines (new_nick r))
